@@ -250,6 +250,22 @@ theorem window_exact (s : State) (h t : Nat) (hs : Inv s) (hnd : noDupDenoms s.p
     obtain ⟨_, _, h3, h4⟩ := e.sup d
     exact tick_congr a _ _ _ h4 h3
 
+/-- between blocks the window state moves only by accepted claims of incoming transfers of a
+time-limited asset, by exactly the claimed amount; the elapsed time never moves -/
+theorem tl_only_by_incoming_claim (s s' : State) (sender id secret : String) (hs : Inv s)
+    (h : step s (.claim sender id secret) = .ok s') :
+    ∃ c, AMap.get? s.htlcs id = some c ∧ ∀ d,
+      (supOf s' d).elapsed = (supOf s d).elapsed ∧
+      (supOf s' d).tlCurrent = (supOf s d).tlCurrent + tlAdd s c d :=
+  tl_stepClaim hs h
+
+/-- a create changes neither the window state nor the current supply -/
+theorem create_keeps_window (s s' : State) (sender to : Addr) (coins : Coins) (lock : String) (ts tl : Nat)
+    (transfer : Bool) (h : step s (.create sender to coins lock ts tl transfer) = .ok s') (d : Denom) :
+    (supOf s' d).elapsed = (supOf s d).elapsed ∧ (supOf s' d).tlCurrent = (supOf s d).tlCurrent ∧
+    (supOf s' d).current = (supOf s d).current :=
+  tl_stepCreate h d
+
 /-! ### corollaries: what cannot fail -/
 
 /-- **refund at expiry cannot fail**: for every queue entry of a state satisfying the invariant,
